@@ -141,6 +141,11 @@ func ToValidatePeriod(now time.Time, v string, isRelative bool) (string, error) 
 	}
 
 	if isRelative {
+		// The relative format below carries days, hours, minutes and seconds only:
+		// anything from 31 days on cannot be expressed and must not be shortened.
+		if d >= maxRelativeValidatePeriod {
+			return "", fmt.Errorf("relative period %s is not representable (must be below 31 days)", v)
+		}
 		return timeToSMPPTimeFormatRelative(d), nil
 	}
 	return timeToSMPPTimeFormatAbsolute(now, now.Add(d)), nil
@@ -171,6 +176,8 @@ const (
 	*/
 	smppAbsoluteTimeFormat = "060102150405"
 	smppRelativeTimeFormat = "0000%02d%02d%02d%02d000R" // 不支持年、月级别的超时时间
+
+	maxRelativeValidatePeriod = 31 * 24 * time.Hour
 )
 
 // timeToSMPPTimeFormatRelative 将时间t转为SMPP规定的时间格式——相对时间
